@@ -47,6 +47,7 @@ func ManageDeployment(client runtimeclient.Client, daemonset *datadoghqv1alpha1.
 
 	allPodToCreate := []*NodeItem{}
 	allPodToDelete := []*NodeItem{}
+	oldAvailablePodToDelete := []*NodeItem{}
 
 	nbNodes := len(params.PodByNodeName)
 
@@ -71,17 +72,17 @@ func ManageDeployment(client runtimeclient.Client, daemonset *datadoghqv1alpha1.
 			allPods++
 			// Check for any differences between stored pod and existing pod
 			if !compareCurrentPodWithNewPod(params, pod, node) {
-				if pod.DeletionTimestamp == nil {
-					allPodToDelete = append(allPodToDelete, node)
-				} else {
+				if pod.DeletionTimestamp != nil {
 					podsTerminating++
 
 					continue
 				}
 				if podutils.IsPodAvailable(pod, 0, metaNow) {
 					oldAvailablePods++
+					oldAvailablePodToDelete = append(oldAvailablePodToDelete, node)
 				} else {
 					oldUnavailablePods++
+					allPodToDelete = append(allPodToDelete, node)
 				}
 			} else {
 				createdPods++
@@ -94,6 +95,10 @@ func ManageDeployment(client runtimeclient.Client, daemonset *datadoghqv1alpha1.
 			}
 		}
 	}
+
+	// Pods that are already unavailable are replaced first: the deletion budget counts them as free,
+	// so only what is left of it may be spent on pods that are still available.
+	allPodToDelete = append(allPodToDelete, oldAvailablePodToDelete...)
 
 	// Retrieves parameters for calculation
 	maxUnavailable, err := intstrutil.GetValueFromIntOrPercent(params.Strategy.RollingUpdate.MaxUnavailable, nbNodes, true)
